@@ -1,6 +1,7 @@
 package main
 
 import (
+	"sort"
 	"go/token"
 	"go/types"
 
@@ -469,4 +470,112 @@ func (p *Program) methodObjectField(recv ssa.Value, idx int) ([]ssa.Value, bool)
 		}
 	}
 	return out, len(out) > 0
+}
+
+// reachingStores: the stores to the local variable `a` that can be the last one executed before load u, when the
+// variable is only loaded and stored by its function - apart from function literals that are merely deferred (they
+// run when the function is left) or that never assign it. ok=false when the variable can change behind the
+// function's back; callers then fall back to "every store ever".
+func (p *Program) reachingStores(u *ssa.UnOp, a *ssa.Alloc) (stores []*ssa.Store, zero bool, ok bool) {
+	fn := a.Parent()
+	if fn == nil || u.Parent() != fn {
+		return nil, false, false
+	}
+	for _, ref := range referrers(a) {
+		switch x := ref.(type) {
+		case *ssa.Store:
+			if x.Addr != ssa.Value(a) {
+				return nil, false, false
+			}
+		case *ssa.UnOp, *ssa.DebugRef:
+		case *ssa.MakeClosure:
+			cl, isFn := x.Fn.(*ssa.Function)
+			if !isFn {
+				return nil, false, false
+			}
+			onlyDeferred := true
+			for _, r2 := range referrers(x) {
+				switch r2.(type) {
+				case *ssa.Defer, *ssa.DebugRef:
+				default:
+					onlyDeferred = false
+				}
+			}
+			assigns := false
+			for k, b := range x.Bindings {
+				if b == ssa.Value(a) && k < len(cl.FreeVars) {
+					for _, g := range withClosures(cl) {
+						_ = g
+					}
+					for _, r3 := range referrers(cl.FreeVars[k]) {
+						if st, isSt := r3.(*ssa.Store); isSt && st.Addr == ssa.Value(cl.FreeVars[k]) {
+							assigns = true
+						}
+						if _, isMC := r3.(*ssa.MakeClosure); isMC {
+							assigns = true // handed further down: not followed
+						}
+					}
+				}
+			}
+			if !onlyDeferred && assigns {
+				return nil, false, false
+			}
+		default:
+			return nil, false, false
+		}
+	}
+	// forward may-analysis over blocks: the set of stores (nil = the zero value) that reach the block's end
+	type set map[*ssa.Store]bool
+	out := map[*ssa.BasicBlock]set{}
+	zeroOut := map[*ssa.BasicBlock]bool{}
+	lastStore := func(b *ssa.BasicBlock, before int) *ssa.Store {
+		for i := before - 1; i >= 0; i-- {
+			if st, ok := b.Instrs[i].(*ssa.Store); ok && st.Addr == ssa.Value(a) {
+				return st
+			}
+		}
+		return nil
+	}
+	inOf := func(b *ssa.BasicBlock) (set, bool) {
+		in := set{}
+		z := false
+		if b == fn.Blocks[0] {
+			z = true
+		}
+		for _, pr := range b.Preds {
+			for st := range out[pr] {
+				in[st] = true
+			}
+			if zeroOut[pr] {
+				z = true
+			}
+		}
+		return in, z
+	}
+	for changed := true; changed; {
+		changed = false
+		for _, b := range fn.Blocks {
+			var o set
+			z := false
+			if st := lastStore(b, len(b.Instrs)); st != nil {
+				o = set{st: true}
+			} else {
+				o, z = inOf(b)
+			}
+			if len(o) != len(out[b]) || z != zeroOut[b] {
+				out[b] = o
+				zeroOut[b] = z
+				changed = true
+			}
+		}
+	}
+	if st := lastStore(u.Block(), indexInBlock(u)); st != nil {
+		return []*ssa.Store{st}, false, true
+	}
+	in, z := inOf(u.Block())
+	for st := range in {
+		stores = append(stores, st)
+	}
+	sort.Slice(stores, func(i, j int) bool { return stores[i].Pos() < stores[j].Pos() })
+	return stores, z, true
 }
